@@ -387,14 +387,21 @@ impl<'a> FormatFields<'a> for JsonFields {
         // separate layer, rather than a formatter for the `fmt` layer —
         // then, we could store fields as JSON values, and add to them
         // without having to parse and re-serialize.
-        let mut new = String::new();
-        let map: BTreeMap<&'_ str, serde_json::Value> =
+        //
+        // The stored object is parsed into a map with *owned* keys: a field name
+        // that needs escaping in JSON (a quote, a backslash, a control character)
+        // cannot be deserialized as a borrowed `&str`, and failing here would
+        // silently drop the newly recorded fields.
+        let mut map: serde_json::Map<String, serde_json::Value> =
             serde_json::from_str(current).map_err(|_| fmt::Error)?;
+        let mut new = String::new();
         let mut v = JsonVisitor::new(&mut new);
-        v.values = map;
         fields.record(&mut v);
         v.finish()?;
-        current.fields = new;
+        let new: serde_json::Map<String, serde_json::Value> =
+            serde_json::from_str(&new).map_err(|_| fmt::Error)?;
+        map.extend(new);
+        current.fields = serde_json::to_string(&map).map_err(|_| fmt::Error)?;
 
         Ok(())
     }
